@@ -4,8 +4,7 @@
 // Nothing in /repo is touched. With it the scheduler can pre-empt a request between any two
 // statements of the framework, not only at the six hand-placed hook sites.
 //
-// Functions that take a lock or run under sync.Once are left alone: parking a task inside a
-// critical section would only exercise the scheduler's blocked-outside path.
+// Functions that run something under sync.Once are left alone (see usesLock).
 package main
 
 import (
@@ -31,8 +30,12 @@ func usesLock(fn ast.Node) bool {
 	ast.Inspect(fn, func(n ast.Node) bool {
 		if c, ok := n.(*ast.CallExpr); ok {
 			if s, ok := c.Fun.(*ast.SelectorExpr); ok {
-				switch s.Sel.Name {
-				case "Lock", "RLock", "Do":
+				// sync.Once.Do bodies stay atomic: every request touches the same few Once values
+				// (lazily rendered route strings), and a task parked inside one would stall every
+				// other task on its first step. Mutex-protected code is instrumented: a task parked
+				// inside a critical section makes a contender block outside the scheduler, which the
+				// scheduler survives (and which is how a lock-order or re-entrancy hang shows).
+				if s.Sel.Name == "Do" {
 					found = true
 				}
 			}
